@@ -164,11 +164,7 @@ func runC16(p *core.Prog, r *core.Result) {
 			r.Check(ok, "R16.5", "diff.DiffDepth#nil-iff-equal", p.InstrPos(ret), "the empty diff is returned only on the edge where EqualDepth reported equality", "an empty diff can be returned for unequal values")
 		} else {
 			mi, isMI := vals[0].(*ssa.MakeInterface)
-			ok := isMI
-			if isMI {
-				_, isAlloc := mi.X.(*ssa.Alloc)
-				ok = isAlloc
-			}
+			ok := isMI && freshNode(mi.X, 0)
 			r.Check(ok, "R16.5", "diff.DiffDepth#non-nil-node", p.InstrPos(ret), "unequal values yield a freshly allocated diff node", "a successful return for unequal values may be nil")
 		}
 	}
@@ -193,11 +189,33 @@ func runC16(p *core.Prog, r *core.Result) {
 		for _, ret := range core.ReturnsOf(fn) {
 			vals := core.RetVals(ret)
 			if len(vals) == 2 && core.IsNilConst(vals[1]) {
-				_, isAlloc := vals[0].(*ssa.Alloc)
+				isAlloc := freshNode(vals[0], 0)
 				r.Check(isAlloc, "R16.5", fname(fn)+"#non-nil-node", p.InstrPos(ret), "returns a freshly allocated node on success", "may return a nil node without an error")
 			}
 		}
 	}
+}
+
+// freshNode: v is a freshly allocated (hence non-nil) pointer: an allocation, or the result of a constructor helper
+// of the module every return of which is one.
+func freshNode(v ssa.Value, depth int) bool {
+	switch x := v.(type) {
+	case *ssa.Alloc:
+		return true
+	case *ssa.Call:
+		h := core.Callee(x)
+		if h == nil || !core.InModule(h) || h.Blocks == nil || depth >= 2 || h.Signature.Results().Len() != 1 {
+			return false
+		}
+		rets := core.ReturnsOf(h)
+		for _, ret := range rets {
+			if !freshNode(ret.Results[0], depth+1) {
+				return false
+			}
+		}
+		return len(rets) > 0
+	}
+	return false
 }
 
 func checkRecordSeq(p *core.Prog, r *core.Result, recordSeq, extend *ssa.Function) {
@@ -234,6 +252,72 @@ func checkRecordSeq(p *core.Prog, r *core.Result, recordSeq, extend *ssa.Functio
 	// underReverse evaluates v (a constant, or a phi selected by `if diff.reverse`) for reverse = want.
 	var under func(v ssa.Value, want bool, facts core.FactSet) (ssa.Value, bool)
 	under = func(v ssa.Value, want bool, facts core.FactSet) (ssa.Value, bool) {
+		// a helper of the package applied to constants (func (d *differ) orient(k editKind) editKind): evaluate it -
+		// the one return whose facts agree with reverse = want and with the constant arguments
+		if hc, isCall := v.(*ssa.Call); isCall {
+			h := core.Callee(hc)
+			if h == nil || h.Pkg != recordSeq.Pkg || h.Blocks == nil || h.Signature.Results().Len() != 1 {
+				return v, true
+			}
+			argOf := func(x ssa.Value) (ssa.Value, bool) {
+				for i, prm := range h.Params {
+					if prm == x && i < len(hc.Call.Args) {
+						return hc.Call.Args[i], true
+					}
+				}
+				return nil, false
+			}
+			var res ssa.Value
+			n := 0
+			for _, ret := range core.ReturnsOf(h) {
+				consistent, decided := true, true
+				for f := range p.FactsAt(ret) {
+					if isReverse(f.Cond) {
+						if f.Val != want {
+							consistent = false
+						}
+						continue
+					}
+					b, isCmp := f.Cond.(*ssa.BinOp)
+					if !isCmp || (b.Op != token.EQL && b.Op != token.NEQ) {
+						decided = false
+						continue
+					}
+					var av ssa.Value
+					var cv ssa.Value
+					if a, ok := argOf(b.X); ok {
+						av, cv = a, b.Y
+					} else if a, ok := argOf(b.Y); ok {
+						av, cv = a, b.X
+					}
+					ka, ok1 := core.ConstInt(av)
+					kc, ok2 := core.ConstInt(cv)
+					if av == nil || !ok1 || !ok2 {
+						decided = false
+						continue
+					}
+					if ((ka == kc) == (b.Op == token.EQL)) != f.Val {
+						consistent = false
+					}
+				}
+				if !consistent {
+					continue
+				}
+				if !decided {
+					return nil, false
+				}
+				rv := core.RetVals(ret)[0]
+				if a, ok := argOf(rv); ok {
+					rv = a
+				}
+				res = rv
+				n++
+			}
+			if n != 1 {
+				return nil, false
+			}
+			return res, true
+		}
 		phi, ok := v.(*ssa.Phi)
 		if !ok {
 			return v, true
@@ -481,23 +565,52 @@ func checkMappingDiff(p *core.Prog, r *core.Result, diffMapping, DiffDepth *ssa.
 		r.Unk("R16.3", "diff.diffMapping#params", p.Pos(diffMapping.Pos()), "expected two mapping parameters")
 		return
 	}
+	// hosts: diffMapping itself, and helpers of the package that it hands one or both operands to (the work on one
+	// key may live in a function of its own); inside a helper a parameter stands for the operand it receives
+	type hostT struct {
+		fn   *ssa.Function
+		side map[ssa.Value]int
+		site *ssa.Call // the call in diffMapping (nil for diffMapping itself)
+	}
+	unwrapIface := func(v ssa.Value) ssa.Value {
+		if ci, ok := v.(*ssa.ChangeInterface); ok {
+			return ci.X
+		}
+		return v
+	}
+	hosts := []hostT{{diffMapping, map[ssa.Value]int{vps[0]: 0, vps[1]: 1}, nil}}
+	hostOf := map[*ssa.Function]int{diffMapping: 0}
+	core.Instrs(diffMapping, func(in ssa.Instruction) {
+		c, ok := in.(*ssa.Call)
+		if !ok || c.Call.IsInvoke() {
+			return
+		}
+		h := core.Callee(c)
+		if h == nil || h.Pkg != diffMapping.Pkg || h.Blocks == nil || h == DiffDepth || h == diffMapping {
+			return
+		}
+		if _, dup := hostOf[h]; dup {
+			return
+		}
+		sd := map[ssa.Value]int{}
+		for i, a := range c.Call.Args {
+			for sde := 0; sde < 2; sde++ {
+				if unwrapIface(a) == ssa.Value(vps[sde]) && i < len(h.Params) {
+					sd[h.Params[i]] = sde
+				}
+			}
+		}
+		if len(sd) > 0 {
+			hostOf[h] = len(hosts)
+			hosts = append(hosts, hostT{h, sd, c})
+		}
+	})
 	// Get invokes: which operand, and their `found` results
 	type getCall struct {
 		call *ssa.Call
 		side int
 	}
 	var gets []getCall
-	core.Instrs(diffMapping, func(in ssa.Instruction) {
-		c, ok := in.(*ssa.Call)
-		if !ok || !c.Call.IsInvoke() || c.Call.Method.Name() != "Get" {
-			return
-		}
-		for s := 0; s < 2; s++ {
-			if c.Call.Value == ssa.Value(vps[s]) {
-				gets = append(gets, getCall{c, s})
-			}
-		}
-	})
 	// lookup-like helpers: h(m, key, ...) whose results 0 and 1 are the value and the found flag of m.Get(key)
 	// on every return (or nil/false on a return that also reports an error)
 	lookupLike := func(h *ssa.Function) (mapParam int, ok bool) {
@@ -545,25 +658,36 @@ func checkMappingDiff(p *core.Prog, r *core.Result, diffMapping, DiffDepth *ssa.
 		}
 		return mapParam, n > 0
 	}
-	core.Instrs(diffMapping, func(in ssa.Instruction) {
-		c, ok := in.(*ssa.Call)
-		if !ok || c.Call.IsInvoke() {
-			return
-		}
-		if mp, ok := lookupLike(core.Callee(c)); ok && mp < len(c.Call.Args) {
-			arg := c.Call.Args[mp]
-			if ci, isCI := arg.(*ssa.ChangeInterface); isCI {
-				arg = ci.X
+	for _, h := range hosts {
+		core.Instrs(h.fn, func(in ssa.Instruction) {
+			c, ok := in.(*ssa.Call)
+			if !ok {
+				return
 			}
-			for s := 0; s < 2; s++ {
-				if arg == ssa.Value(vps[s]) {
-					gets = append(gets, getCall{c, s})
+			if c.Call.IsInvoke() {
+				if c.Call.Method.Name() == "Get" {
+					if sd, ok := h.side[c.Call.Value]; ok {
+						gets = append(gets, getCall{c, sd})
+					}
+				}
+				return
+			}
+			if mp, ok := lookupLike(core.Callee(c)); ok && mp < len(c.Call.Args) {
+				if sd, ok := h.side[unwrapIface(c.Call.Args[mp])]; ok {
+					gets = append(gets, getCall{c, sd})
 				}
 			}
+		})
+	}
+	// siteOf: the point of diffMapping that stands for `at` (the call of the helper `at` lives in)
+	siteOf := func(at ssa.Instruction) ssa.Instruction {
+		if hi, ok := hostOf[at.Parent()]; ok && hosts[hi].site != nil {
+			return hosts[hi].site
 		}
-	})
+		return at
+	}
 	foundFact := func(at ssa.Instruction, side int, want bool) bool {
-		return p.FactsAt(at).Find(func(cv ssa.Value, v bool) bool {
+		pred := func(cv ssa.Value, v bool) bool {
 			e, ok := cv.(*ssa.Extract)
 			if !ok || e.Index != 1 || v != want {
 				return false
@@ -574,10 +698,18 @@ func checkMappingDiff(p *core.Prog, r *core.Result, diffMapping, DiffDepth *ssa.
 				}
 			}
 			return false
-		})
+		}
+		if p.FactsAt(at).Find(pred) {
+			return true
+		}
+		if st := siteOf(at); st != at {
+			return p.FactsAt(st).Find(pred)
+		}
+		return false
 	}
 	// iteration: which operand's iterator produced the key in scope: Iterate() invoke on vps[s]; Next() on it dominates
 	iterSide := func(at ssa.Instruction) int {
+		at = siteOf(at)
 		side := -1
 		core.Instrs(diffMapping, func(in ssa.Instruction) {
 			c, ok := in.(*ssa.Call)
@@ -609,35 +741,40 @@ func checkMappingDiff(p *core.Prog, r *core.Result, diffMapping, DiffDepth *ssa.
 		return ""
 	}
 	seen := map[string]bool{}
-	// edit constructions: Edit literals in diffMapping, or calls to a constructor helper that stores its kind parameter
+	// edit constructions: Edit literals in a host, or calls to a constructor helper that stores its kind parameter
 	type editSite struct {
 		at   ssa.Instruction
 		kind string
 	}
 	var sites []editSite
-	core.Instrs(diffMapping, func(in ssa.Instruction) {
-		if st, ok := in.(*ssa.Store); ok && core.IsField(st.Addr, pkgDiff, "Edit", "kind") {
-			sites = append(sites, editSite{st, globalsKind(st.Val)})
-			return
-		}
-		call, ok := in.(*ssa.Call)
-		if !ok {
-			return
-		}
-		h := core.Callee(call)
-		if h == nil || !core.InModule(h) || h.Blocks == nil || h == diffMapping {
-			return
-		}
-		core.Instrs(h, func(hin ssa.Instruction) {
-			if st, ok := hin.(*ssa.Store); ok && core.IsField(st.Addr, pkgDiff, "Edit", "kind") {
-				if prm, ok := st.Val.(*ssa.Parameter); ok {
-					if j := paramIndex(h, prm); j >= 0 && j < len(call.Call.Args) {
-						sites = append(sites, editSite{call, globalsKind(call.Call.Args[j])})
+	for _, hst := range hosts {
+		core.Instrs(hst.fn, func(in ssa.Instruction) {
+			if st, ok := in.(*ssa.Store); ok && core.IsField(st.Addr, pkgDiff, "Edit", "kind") {
+				sites = append(sites, editSite{st, globalsKind(st.Val)})
+				return
+			}
+			call, ok := in.(*ssa.Call)
+			if !ok {
+				return
+			}
+			h := core.Callee(call)
+			if h == nil || !core.InModule(h) || h.Blocks == nil || h == diffMapping {
+				return
+			}
+			if _, isHost := hostOf[h]; isHost {
+				return
+			}
+			core.Instrs(h, func(hin ssa.Instruction) {
+				if st, ok := hin.(*ssa.Store); ok && core.IsField(st.Addr, pkgDiff, "Edit", "kind") {
+					if prm, ok := st.Val.(*ssa.Parameter); ok {
+						if j := paramIndex(h, prm); j >= 0 && j < len(call.Call.Args) {
+							sites = append(sites, editSite{call, globalsKind(call.Call.Args[j])})
+						}
 					}
 				}
-			}
+			})
 		})
-	})
+	}
 	for _, es := range sites {
 		st := es.at
 		kind := es.kind
@@ -653,7 +790,7 @@ func checkMappingDiff(p *core.Prog, r *core.Result, diffMapping, DiffDepth *ssa.
 		case "EditKindReplace":
 			// on the non-nil edge of DiffDepth(oldV, newV) with oldV from old.Get and newV from new.Get
 			ok := false
-			for _, c := range core.CallsTo(diffMapping, DiffDepth) {
+			for _, c := range core.CallsTo(st.Parent(), DiffDepth) {
 				call := c.(*ssa.Call)
 				var dv ssa.Value
 				for _, ref := range *call.Referrers() {
@@ -737,14 +874,20 @@ func checkReasonTable(p *core.Prog, r *core.Result) {
 						diffEnv := p.Func("", "function", "diffEnv")
 						used := false
 						if diffEnv != nil {
-							core.Instrs(diffEnv, func(in ssa.Instruction) {
-								var ops []*ssa.Value
-								for _, op := range in.Operands(ops) {
-									if *op == ssa.Value(g) {
-										used = true
-									}
+							// diffEnv itself or a helper of its package it calls
+							for f := range staticClosure(p, diffEnv) {
+								if f.Pkg != diffEnv.Pkg {
+									continue
 								}
-							})
+								core.Instrs(f, func(in ssa.Instruction) {
+									var ops []*ssa.Value
+									for _, op := range in.Operands(ops) {
+										if *op == ssa.Value(g) {
+											used = true
+										}
+									}
+								})
+							}
 						}
 						if used {
 							table = vals
